@@ -228,6 +228,14 @@ def unhex(h):
     return b'' if h == '-' else bytes.fromhex(h)
 
 
+def unhex_s(h):
+    """hex field of a driver line -> text; '-' is the empty string; anything unreadable is shown as it is"""
+    try:
+        return '' if h in ('-', '') else bytes.fromhex(h).decode('latin-1')
+    except ValueError:
+        return '<%s>' % h
+
+
 def files_fields(main, files):
     """<main> <k> (<name> <content>)^k ; files: dict name(bytes/str) -> content(bytes/str)"""
     out = [hexs(main), str(len(files))]
@@ -284,7 +292,7 @@ def norm_outcome(line, side):
     """UB (model) == CRASH (impl); FUEL (model) == TIMEOUT/FUEL (impl)."""
     if line.startswith('CRASH') or line.startswith('UB') or ' UB:' in line:
         return 'UB'
-    if line.startswith('TIMEOUT') or line.startswith('FUEL') or line.endswith('FUEL'):
+    if line.startswith('TIMEOUT') or line.startswith('MEMLIMIT') or line.startswith('FUEL') or line.endswith('FUEL'):
         return 'FUEL'
     return line
 
